@@ -78,6 +78,11 @@ ScanStep(live, N, k, dna, st) ==
 RECURSIVE Scan(_, _, _, _, _)
 Scan(live, N, k, dna, st) == IF ScanDone(dna, st) THEN st ELSE Scan(live, N, k, dna, ScanStep(live, N, k, dna, st))
 
+\* what the scan loop looks like at the head of every iteration: <<location, vertex, length of the current segment>>
+RECURSIVE ScanLog(_, _, _, _, _, _)
+ScanLog(live, N, k, dna, st, acc) ==
+  IF ScanDone(dna, st) THEN acc
+  ELSE ScanLog(live, N, k, dna, ScanStep(live, N, k, dna, st), Append(acc, <<st.loc, st.v, Len(st.segs[Len(st.segs)])>>))
 Rev(s) == [i \in 1..Len(s) |-> s[Len(s) + 1 - i]]
 FragsFor(live, N, k, chunk, marker, indel) ==
   LET rm == Rev(marker)
